@@ -57,13 +57,28 @@ fn out_rel(lang: Lang, multi: bool) -> String {
     }
 }
 
-fn step(lang: Lang, multi: bool, version: &[(&'static str, String)], before: &State) -> StepResult {
+/// `loc`: "plain" — the output path is an ordinary file / directory; "through-symlink" — the output file (single-file mode,
+/// when it exists) or the output directory (multi-file mode) is a symbolic link to the real one
+fn step(lang: Lang, multi: bool, loc: &str, version: &[(&'static str, String)], before: &State) -> StepResult {
     let sc = Scratch::new("c17");
     for (p, src) in version {
         sc.write(p, src.as_bytes());
     }
-    sc.mkdir("out");
+    let linked = loc == "through-symlink";
+    if linked && multi {
+        sc.mkdir("real_out");
+        let _ = std::os::unix::fs::symlink(sc.path("real_out"), sc.path("out"));
+    } else {
+        sc.mkdir("out");
+    }
+    let single_name = format!("types.{}", lang.ext());
     for (rel, bytes) in before {
+        if linked && !multi && *rel == single_name {
+            let p = sc.write(&format!("real/{rel}"), bytes);
+            set_mtime(&p, old_time());
+            let _ = std::os::unix::fs::symlink(&p, sc.path(&format!("out/{rel}")));
+            continue;
+        }
         let p = sc.write(&format!("out/{rel}"), bytes);
         set_mtime(&p, old_time());
     }
@@ -95,13 +110,14 @@ struct GraphResult {
     sample: Option<serde_json::Value>,
 }
 
-fn explore_graph(lang: Lang, multi: bool, nversions: usize, cap: usize) -> GraphResult {
+fn explore_graph(lang: Lang, multi: bool, loc: &'static str, nversions: usize, cap: usize) -> GraphResult {
     let vs: Vec<_> = versions(lang).into_iter().take(nversions).collect();
-    let mode = if multi { "multi" } else { "single" };
+    let mode: String = format!("{}{}", if multi { "multi" } else { "single" }, if loc == "plain" { String::new() } else { format!("|output={loc}") });
+    let mode = mode.as_str();
     let mut res = GraphResult { states: 0, transitions: 0, closed: false, max_depth: 0, vios: vec![], machinery: vec![], sample: None };
     // fresh-run references
     let empty: State = BTreeMap::new();
-    let fresh: Vec<StepResult> = vs.iter().map(|(_, files)| step(lang, multi, files, &empty)).collect();
+    let fresh: Vec<StepResult> = vs.iter().map(|(_, files)| step(lang, multi, loc, files, &empty)).collect();
     for (i, f) in fresh.iter().enumerate() {
         if matches!(f.class, "panic" | "hang" | "killed-by-signal") {
             res.vios.push(Violation { sig: format!("C17|{}|{mode}|fresh-run-{}|version={}", lang.name(), f.class, vs[i].0), detail: json!({"argv": f.argv, "stderr": f.stderr}) });
@@ -137,7 +153,7 @@ fn explore_graph(lang: Lang, multi: bool, nversions: usize, cap: usize) -> Graph
     while let Some((st, depth, hist)) = queue.pop_front() {
         res.max_depth = res.max_depth.max(depth);
         for (vi, (vname, files)) in vs.iter().enumerate() {
-            let r = step(lang, multi, files, &st);
+            let r = step(lang, multi, loc, files, &st);
             res.transitions += 1;
             let mut h = hist.clone();
             h.push(vname.to_string());
@@ -212,19 +228,21 @@ pub fn run(args: &[String]) -> i32 {
         }
     }
     let thorough = rep.thorough();
-    let graphs: Vec<(Lang, bool, usize)> = if thorough {
-        ALL_LANGS.iter().flat_map(|l| [(*l, false, 11), (*l, true, 11)]).collect()
+    const P: &str = "plain";
+    const L: &str = "through-symlink";
+    let graphs: Vec<(Lang, bool, &'static str, usize)> = if thorough {
+        ALL_LANGS.iter().flat_map(|l| [(*l, false, P, 11), (*l, true, P, 11), (*l, false, L, 6), (*l, true, L, 6)]).collect()
     } else {
-        vec![(Lang::Swift, true, 6), (Lang::Swift, false, 6), (Lang::TypeScript, true, 6), (Lang::TypeScript, false, 6), (Lang::Kotlin, true, 6)]
+        vec![(Lang::Swift, true, P, 6), (Lang::Swift, false, P, 6), (Lang::TypeScript, true, P, 6), (Lang::TypeScript, false, P, 6), (Lang::Kotlin, true, P, 6), (Lang::Swift, false, L, 4), (Lang::Go, false, L, 4), (Lang::Swift, true, L, 4)]
     };
-    let results = par_map(&graphs, report::threads(), |(l, m, n)| explore_graph(*l, *m, *n, 400));
+    let results = par_map(&graphs, report::threads(), |(l, m, loc, n)| explore_graph(*l, *m, loc, *n, 400));
     let mut states = 0;
     let mut transitions = 0;
     let mut per_graph = Vec::new();
-    for ((l, m, n), r) in graphs.iter().zip(results) {
+    for ((l, m, loc, n), r) in graphs.iter().zip(results) {
         states += r.states;
         transitions += r.transitions;
-        per_graph.push(json!({"lang": l.name(), "mode": if *m { "multi" } else { "single" }, "versions": n, "states": r.states, "transitions": r.transitions, "closed": r.closed, "max_depth": r.max_depth}));
+        per_graph.push(json!({"lang": l.name(), "mode": if *m { "multi" } else { "single" }, "output_location": loc, "versions": n, "states": r.states, "transitions": r.transitions, "closed": r.closed, "max_depth": r.max_depth}));
         for v in r.vios {
             rep.vios.add(v);
         }
@@ -242,7 +260,7 @@ pub fn run(args: &[String]) -> i32 {
     rep.cov("distinct_nontrivial", json!(states));
     rep.cov("graphs", json!(per_graph));
     rep.cov("exhaustive", json!(true));
-    rep.cov("rule", json!("per (language, mode): breadth-first search over the states of the output location (file name → bytes), starting from the empty location, from one pre-filled with foreign bytes, and from every complete earlier output with one generated file missing; the actions are `run the real binary on source-tree version v`; explored to closure, which covers run histories of every length over the version alphabet. On every transition: same exit status as a fresh run, every file of the fresh run has the fresh content, a file with unchanged bytes keeps its mtime, a failing run changes nothing."));
+    rep.cov("rule", json!("per (language, mode, output location: plain, or reached through a symbolic link): breadth-first search over the states of the output location (file name → bytes), starting from the empty location, from one pre-filled with foreign bytes, and from every complete earlier output with one generated file missing; the actions are `run the real binary on source-tree version v`; explored to closure, which covers run histories of every length over the version alphabet. On every transition: same exit status as a fresh run, every file of the fresh run has the fresh content, a file with unchanged bytes keeps its mtime, a failing run changes nothing."));
     rep.assume("the binary reads nothing from the output location except the files it compares against, so equal bytes mean equal futures (mtimes are normalised before each step and checked on each transition)");
     rep.assume("stale files of crates that disappeared are not judged (the property does not ask for deletion)");
     rep.finish()
